@@ -675,12 +675,12 @@ class RefBuild:
                         m.set_variant(names[0], int(names[1]))
                         res.append(True)
                         continue
-                    if cmd == "ifchange":
+                    if cmd in ("ifchange", "make-j2"):
                         for d in names:
                             newseen[d] = ("m", None)
                     r_ok = self.request_list(list(names), forced=(cmd == "redo"), parent=X)
                     res.append(bool(r_ok))
-                    if cmd == "ifchange":
+                    if cmd in ("ifchange", "make-j2"):
                         for d in names:
                             newseen[d] = ("m", m.ver.get(d, 0))
                 self.seq_results[X] = res
